@@ -3191,6 +3191,23 @@ Proof.
   - exists a, i, rest. split; [exact Ha|]. intros ->. apply (Hnc a rest Ha).
 Qed.
 
+(* C06 / C07: when Wait (or Shutdown's waiter) can proceed, no Async+Sequential delivery is queued any more *)
+Theorem wait_only_when_queues_empty P cfg s a rest s' ls :
+  reachable P cfg s ->
+  (assoc_get (code s) a = Some (IDo AWait :: rest) \/ exists sid, assoc_get (code s) a = Some (IWaiterDone sid :: rest)) ->
+  mstep P cfg s a = Some (s', ls) ->
+  forall rid, queue s rid = [].
+Proof.
+  intros R Hhead H rid.
+  destruct (inflight_counts P cfg s R) as [Hc I].
+  assert (Hz: inflight s = 0).
+  { unfold mstep in H. destruct Hhead as [Ha|[sid Ha]]; rewrite Ha in H; cbn [step_instr] in H;
+      destruct (Nat.eqb (inflight s) 0) eqn:E; try discriminate; apply Nat.eqb_eq, E. }
+  destruct (queue s rid) as [|b more] eqn:Eq; [reflexivity|]. exfalso.
+  destruct (q_live s (turn_queue_discipline P cfg s R) rid b) as [c [Hcb Hw]]; [rewrite Eq; left; reflexivity|].
+  pose proof (total_ge (code s) b c Hcb). lia.
+Qed.
+
 (* Turn waits never close a cycle: an Async+Sequential delivery that waits for its turn holds nothing, and nobody waits
    for it (only the head of a queue is waited for) - so a rank for the mutex waits alone suffices.  PROGRESS with the
    acyclicity hypothesis on handler-mutex waits only: the ordering of Async+Sequential deliveries adds no deadlock. *)
